@@ -62,6 +62,9 @@ CLAIMED = {
     "C10": ("other", "DESIGN.md#c10", "symbolic execution of Scene.bounds_corners/bounds/extents/centroid/area/volume/triangles/dump/to_mesh/copy/scaled/rezero/apply_transform/__add__/subscene with symbolic edge matrices; z3 compares every placed vertex with the dictionary-oracle placement for all parameter values",
             "A real Scene (geometry instanced twice through a nested node, a second geometry, a node without geometry, a geometry without node) is built with symbolic edge matrices from four families (translations, x->s*x+t, catalogue rotations with symbolic translation, mixed) and every scene quantity is compared with the explicit placement W(node).v (bounds as If-min/max terms, triangles per node, dump/to_mesh per instance, area/volume as s^2/s^3-weighted sums). Derived scenes are compared the same way and the source scene with its snapshot.",
             TRUSTED + "two catalogue geometries; scale factors in prime-centred intervals (fix_rigid band excluded); documented shortcut bands of scaled (|k-1|<=2e-5) and rezero (centroid within 1e-3 of origin) excluded; convex hull, cameras, lights, unit strings not claimed."),
+    "C17": ("other", "DESIGN.md#c17", "symbolic execution of the copy routes of Trimesh / Primitive / Path2D / PointCloud / Scene / VoxelGrid / ColorVisuals; read-state, copy route, edited side and edit SITE are solver variables (forked), the written value a fresh symbolic real; z3 decides that the other object's values equal their snapshot",
+            "For each kind a real object with a symbolic payload is copied by .copy(), copy.copy or copy.deepcopy (chosen by the solver), with or without derived values read before; then one edit is applied at a solver-chosen site (in-place array writes, nested metadata, attributes, visuals, primitive parameters, graph edges, API mutators) on the copy or the original with a symbolic value outside the range of every existing value, and every value of the other object - re-read after the edit - is compared with its snapshot; right after copying both objects must report the same values.",
+            TRUSTED + "small catalogue objects; one edit (two in the thorough tier, mesh kind); textures, shapely polygons and cameras not compared."),
 }
 
 NOT_APPLICABLE = {
